@@ -182,20 +182,28 @@ def materialize(interp, comp, kind, node=None):
     ctx.assume(z3.ForAll([k], z3.Implies(inr, interp._bt(interp.eq(res.at(k), sample)))))
     return res
   c = interp._bt(c)
+  # [f(x) for x in s if c(x)]: facts that hold of the order-preserving filtered map.  cnt(k) =
+  # number of kept elements before position k, src(j) = position that produced result element j.
+  # (The defining recurrence of cnt is deliberately not asserted: it creates matching loops; every
+  #  fact below follows from it by induction, so assuming them is sound.)
   cnt = interp.uf("cnt!%d" % interp._qid(), [z3.IntSort()], z3.IntSort())
   src = interp.uf("src!%d" % interp._qid(), [z3.IntSort()], z3.IntSort())
   j = z3.Int("mj?%d" % interp._qid())
+  k2 = z3.Int("mk2?%d" % interp._qid())
   ctx.assume(cnt(0) == 0)
-  ctx.assume(z3.ForAll([k], z3.Implies(inr, cnt(k + 1) == cnt(k) + z3.If(c, 1, 0))))
-  ctx.assume(z3.ForAll([k], z3.Implies(z3.And(k >= 0, k <= n), z3.And(cnt(k) >= 0, cnt(k) <= k,
-                                                                      cnt(k) <= cnt(n)))))
   ctx.assume(res.length == cnt(n))
-  ctx.assume(z3.ForAll([k], z3.Implies(z3.And(inr, c),
-                                       interp._bt(interp.eq(res.at(cnt(k)), sample)))))
-  # inverse map (consequence of the definition by induction; stated to help instantiation)
+  ctx.assume(z3.ForAll([k], z3.Implies(z3.And(k >= 0, k <= n), z3.And(cnt(k) >= 0, cnt(k) <= k,
+                                                                      cnt(k) <= res.length))))
+  ctx.assume(z3.ForAll([k, k2], z3.Implies(z3.And(k >= 0, k <= k2, k2 <= n), cnt(k) <= cnt(k2))))
+  ctx.assume(z3.ForAll([k], z3.Implies(z3.And(inr, c), z3.And(
+      cnt(k) < res.length, src(cnt(k)) == k, cnt(k + 1) == cnt(k) + 1,
+      interp._bt(interp.eq(res.at(cnt(k)), sample))))))
+  ctx.assume(z3.ForAll([k], z3.Implies(z3.And(inr, z3.Not(c)), cnt(k + 1) == cnt(k))))
   ck = z3.substitute(c, (k, src(j)))
+  sample_j = comp.elt(interp, SInt(src(j)))
   ctx.assume(z3.ForAll([j], z3.Implies(z3.And(j >= 0, j < res.length),
-                                       z3.And(src(j) >= 0, src(j) < n, ck, cnt(src(j)) == j))))
+                                       z3.And(src(j) >= 0, src(j) < n, ck, cnt(src(j)) == j,
+                                              interp._bt(interp.eq(res.at(j), sample_j))))))
   j2 = z3.Int("mj2?%d" % interp._qid())
   ctx.assume(z3.ForAll([j, j2], z3.Implies(z3.And(j >= 0, j < j2, j2 < res.length),
                                            src(j) < src(j2))))
@@ -237,6 +245,8 @@ def slice_(interp, base, lo, hi, node=None):
       return base[lo:hi]
     except Exception as e:
       interp.raise_(type(e), *e.args, node=node)
+  if isinstance(base, (list, tuple)) and base and not isinstance(base, SSeq):
+    base = to_sseq(interp, base)
   if isinstance(base, SSeq):
     if lo is None and hi is None:
       return SSeq(base.elem, base.arrs, base.length, base.kind)      # a copy (values immutable)
@@ -620,10 +630,33 @@ def call_method(ip, base, name, args, kwargs, node=None):
         return out, None
       return seq_concat(ip, base, other), None
     if name == "copy": return None, SSeq(base.elem, base.arrs, base.length, base.kind)
+    if name == "index" and len(args) == 1:
+      # assumed contract of list/tuple.index: position of the first equal element, or ValueError
+      present = ip.contains(base, args[0])
+      if not ip.spec and not ip.ctx.decide(ip._bt(present)):
+        ip.raise_(ValueError, "x not in sequence", node=node)
+      r = ip.ctx.const("index", z3.IntSort())
+      j = z3.Int("ix?%d" % ip._qid())
+      old = ip.spec; ip.spec = True
+      try:
+        ip.ctx.assume(z3.And(r >= 0, r < base.length, ip._bt(ip.eq(base.at(r), args[0]))))
+        ip.ctx.assume(z3.ForAll([j], z3.Implies(z3.And(j >= 0, j < r),
+                                                z3.Not(ip._bt(ip.eq(base.at(j), args[0]))))))
+      finally:
+        ip.spec = old
+      ip.ctx.assumed_contracts.add("sequence.index(x) = first position of x, ValueError if absent")
+      return None, SInt(r)
     if name == "index" or name == "count":
       ip.unsupported("list.%s on symbolic list" % name, node)
     ip.unsupported("method %s of symbolic list" % name, node)
   if isinstance(base, SMap):
+    if args and isinstance(args[0], SOpt) and not isinstance(base.key, V.Opt):
+      # a T|None key into a dict keyed by T: None is not a key
+      k = args[0]
+      if name == "get":
+        d = args[1] if len(args) > 1 else kwargs.get("default")
+        return None, ip.ite(z3.And(z3.Not(k.isnone), base.has(k.val)), base.at(k.val), d)
+      ip.unsupported("dict.%s with an optional key" % name, node)
     if name == "get":
       k = args[0]; d = args[1] if len(args) > 1 else kwargs.get("default")
       h = base.has(k)
@@ -701,6 +734,8 @@ def call_method(ip, base, name, args, kwargs, node=None):
       sh = ip.contract.map_shapes["update"]
       empty = sh.build(sh.leaves({}))
       return dict_update(ip, empty, args[0], node), None
+    if isinstance(base, (tuple, list)) and name == "index" and base:
+      return call_method(ip, to_sseq(ip, base), name, args, kwargs, node)
     if isinstance(base, tuple) and name in ("index", "count"):
       ip.unsupported("tuple.%s with symbolic members" % name, node)
     ip.unsupported("method %s of %s with symbolic members" % (name, type(base).__name__), node)
